@@ -552,12 +552,7 @@ func vC02Nsec3Case(tr *vC02Trace, g *vC02Gen, zin *vC02Zone) {
 			how := z.existsHow(p.eff)
 			ndTrue := z.nodataTrue(p.eff, p.qtype)
 			p.note = fmt.Sprintf("[truth: exists=%q nodata=%v]", how, ndTrue)
-			ndKey := ""
-			if nd := z.owner(p.eff); nd != nil && z.belowCut(p.eff) == nil && p.qtype != dns.TypeDS && p.qclass == 1 &&
-				vC02Has(nd.types, dns.TypeNS) && !vC02Has(nd.types, dns.TypeSOA) &&
-				!vC02Has(nd.types, p.qtype) && !vC02Has(nd.types, dns.TypeCNAME) {
-				ndKey = "nsec3-nodata-at-delegation"
-			}
+			ndKey := "" // nsec3-nodata-at-delegation was fixed by 130ba3b
 			if exactJudged && p.nd == 0 && p.nds && (!ndTrue || p.qclass != 1) {
 				p.fails = append(p.fails, vC02Failure{field: "nd", fkey: ndKey,
 					msg: fmt.Sprintf("VerifyNODATAForZoneWithWork authenticated NODATA for %s %s which is not true of the zone", p.effStr, dns.TypeToString[p.qtype])})
